@@ -140,7 +140,9 @@ func memoSitesOf(fn *ssa.Function) []memoSite {
 					}
 				}
 			}
-			if hit {
+			// a value that depends on nothing but constants (a compiled constant pattern, an empty
+			// map) is the same at every use: nothing can go stale
+			if hit && !constantInit(st.Val, 0) {
 				out = append(out, memoSite{fn, typeDesc(t) + "." + fldName(stt.Field(fa.Field)), in})
 			}
 		}
@@ -339,13 +341,37 @@ func reuseSitesOf(fn *ssa.Function) []reuseSite {
 }
 
 func ruleBufferReuse(p *Prog, r *Report, rule string, pkgs map[string]bool) {
-	r.rule(rule, "No reuse of a handed-out buffer: a slice variable emptied with `x[:0]` keeps its backing array; when a filling of that variable is stored into a field, element, map or global or returned (directly or as the base of an append), the next filling overwrites the stored data. No such site exists on the audited tree; any is reported.")
+	r.rule(rule, "No reuse of a handed-out buffer: a text buffer (strings.Builder, bytes.Buffer) is not emptied by a function that does not own it (declared outside and captured, a field, a parameter), and a slice variable emptied with `x[:0]` keeps its backing array; when a filling of that variable is stored into a field, element, map or global or returned (directly or as the base of an append), the next filling overwrites the stored data. No such site exists on the audited tree; any is reported.")
 	n := 0
 	for _, fn := range allModFuncs(p) {
 		if !pkgs[pkgOfFunc(fn)] || fn.Synthetic != "" {
 			continue
 		}
 		n++
+		// the same with a text buffer: Reset on a builder that lives longer than this invocation
+		for _, b := range fn.Blocks {
+			for _, in := range b.Instrs {
+				c, ok := in.(*ssa.Call)
+				if !ok {
+					continue
+				}
+				f := c.Common().StaticCallee()
+				if f == nil || len(c.Common().Args) == 0 {
+					continue
+				}
+				switch rawShortName(f) {
+				case "(*strings.Builder).Reset", "(*bytes.Buffer).Reset", "(*bytes.Buffer).Truncate":
+				default:
+					continue
+				}
+				root := cellRootOf(c.Common().Args[0])
+				if al, ok := root.(*ssa.Alloc); ok && al.Parent() == fn {
+					continue
+				}
+				r.add(rule, "reuse-buffer|"+fnDisplay(fn), p.ipos(in), "text buffer emptied in "+fnDisplay(fn), false,
+					"the buffer is declared outside this function (captured, a field or a parameter) and emptied inside it: when the function is entered again before the collected text was used (recursion, the next list of the same rule) what was collected is thrown away")
+			}
+		}
 		for _, s := range reuseSitesOf(fn) {
 			r.add(rule, "reuse|"+fnDisplay(fn), p.ipos(s.In), "buffer emptied with [:0] in "+fnDisplay(fn), false,
 				"the emptied buffer's earlier content was stored at "+p.ipos(s.Escape)+" and shares its backing array: the next filling overwrites it (rules / commands of one item replace those of an earlier one)")
@@ -536,7 +562,7 @@ func lookupsOf(p *Prog, fn *ssa.Function, depth int, seen map[*ssa.Function]bool
 			switch x := in.(type) {
 			case *ssa.Lookup:
 				if _, isMap := x.X.Type().Underlying().(*types.Map); isMap {
-					out[descValue(x.X, 1)] = true
+					out[lookupMapDesc(x.X)] = true
 				}
 			case ssa.CallInstruction:
 				f := x.Common().StaticCallee()
@@ -549,4 +575,57 @@ func lookupsOf(p *Prog, fn *ssa.Function, depth int, seen map[*ssa.Function]bool
 		}
 	}
 	return out
+}
+
+// lookupMapDesc: a map that is a field (or an element of one) is described by its field path
+// (device or target side, kind of object); a parameter by its type; anything built locally
+// (a make, the result of a helper) by its type only: how a local set is built is not what the
+// lookup decides.
+func lookupMapDesc(v ssa.Value) string {
+	switch x := v.(type) {
+	case *ssa.UnOp:
+		if x.Op == token.MUL {
+			if _, ok := x.X.(*ssa.FieldAddr); ok {
+				return descValue(v, 1)
+			}
+		}
+	case *ssa.Lookup:
+		// an element of a map of maps: lookup[prefix]
+		if d := lookupMapDesc(x.X); !strings.HasPrefix(d, "local:") {
+			return d + "[" + descValue(x.Index, 2) + "]"
+		}
+	case *ssa.Parameter:
+		return descValue(v, 1)
+	}
+	return "local:" + typeDesc(v.Type())
+}
+
+// constantInit: a call whose arguments are all constants (or such calls), or a fresh empty
+// map / slice / channel.  Plain constants are not meant: `s.done = true` is a once-flag.
+func constantInit(v ssa.Value, d int) bool {
+	if d > 3 {
+		return false
+	}
+	switch x := v.(type) {
+	case *ssa.MakeMap, *ssa.MakeSlice, *ssa.MakeChan:
+		return true
+	case *ssa.Call:
+		if x.Common().IsInvoke() {
+			return false
+		}
+		for _, a := range x.Common().Args {
+			if _, ok := a.(*ssa.Const); ok {
+				continue
+			}
+			if !constantInit(a, d+1) {
+				return false
+			}
+		}
+		return true
+	case *ssa.MakeInterface:
+		return constantInit(x.X, d+1)
+	case *ssa.ChangeType:
+		return constantInit(x.X, d+1)
+	}
+	return false
 }
